@@ -11,6 +11,8 @@ DEFAULTS = [
     # the parse path: anything that could panic / not terminate while parsing untrusted bytes
     (r'dns/(name|character_string|question|resource_record|packet|header)\.rs|dns/rdata/.*\.rs',
      r'(^|::)(parse|parse_rdata|parse_section|new|extract_info_from_opt_rr)\b', r'.*', {'C01'}),
+    (r'dns/name\.rs', r'(^|::)(is_subdomain_of|without|is_valid_label|is_link_local)\b', r'.*', {'C17'}),
+    (r'dns/name\.rs', r'Label.*::new\b', r'.*', {'C17'}),
     (r'dns/name\.rs', r'as WireFormat::parse\b', r'invariant.*|termination|assert|postcondition', {'C06'}),
     (r'dns/(question|resource_record|packet)\.rs|dns/rdata/macros\.rs', r'(^|::)(parse|parse_rdata|parse_section)\b', r'postcondition|invariant.*|assert', {'C05'}),
     (r'dns/rdata/.*\.rs|dns/character_string\.rs', r'(^|::)(parse|parse_rdata|write_to|len|write_common|lemma_rt)\b', r'postcondition|invariant.*|assert', {'C10'}),
@@ -70,7 +72,7 @@ D18_TEXT = ('the round-trip lemmas need wf_canon: a TXT without strings, a NULL 
             'code of a typed record and QTYPE::TYPE(TYPE::Unknown(251..255)) can be built through the public constructors but are '
             'serialised into bytes that read back as a different value (replay/d18_demo.rs)')
 VERUS_NOTE = ("trusted: Verus/Z3, vstd specs of std, the assume_specification/external_body items listed in the evidence's trusted_base, "
-              "the syntactic normalisations R1-R15 (DESIGN.md 8.3, 8.11, 8.13), slices <= isize::MAX; truncating `as` casts are caught only via functional post-conditions")
+              "the syntactic normalisations R1-R19 (DESIGN.md 8.3, 8.11, 8.13, 8.18), slices <= isize::MAX; truncating `as` casts are caught only via functional post-conditions")
 KANI_NOTE = "trusted: Kani/CBMC; harness reference tables written from the RFCs/IANA registry (kani/harness.rs, contracts/schema.py)"
 
 PROPS = {
@@ -128,12 +130,12 @@ PROPS = {
             'technique': 'Verus contracts on Display for Label and Display for CharacterString with std::fmt::Formatter modelled by one ghost predicate ("the sink failed"); panic-freedom of the parse-produced observers that are inside Verus',
             'text': 'proof for all label / string contents: fmt returns Err only if the formatter\'s sink returned Err and never panics (from_utf8 failure falls back to a lossy rendering); this is what to_string() / format!() and the Debug impls built on them rely on. Display for Name, the Debug impls (format_args!), TXT::attributes / long_attributes and String::try_from are outside Verus: they are listed as unverified observers (they only propagate the results of the two verified functions or use Result-returning std conversions)',
             'note': VERUS_NOTE + '; Formatter::write_str, str::from_utf8, String::from_utf8_lossy are assume_specification items; into_owned / clone / Hash / Eq are derive- or iterator-based and not verified here'},
-    'C17': {'standin': ['name_text'], 'verus': False, 'level': 'other',
-            'kani': ['label_grammar_le65'] + ['suffix_0_0', 'suffix_0_1', 'suffix_0_2', 'suffix_0_3', 'suffix_1_0', 'suffix_1_1', 'suffix_1_2', 'suffix_1_3', 'suffix_2_0', 'suffix_2_1', 'suffix_2_2', 'suffix_2_3', 'suffix_3_0', 'suffix_3_1', 'suffix_3_2', 'suffix_3_3'] + ['link_local_4', 'link_local_5', 'link_local_6', 'link_local_root'],
-            'technique': 'Kani/CBMC bounded harnesses on the real functions (Label::new grammar for every byte string of length <= 65; is_subdomain_of / without for all shapes of <= 3 one-byte labels; is_link_local for last labels of length 4, 5, 6)',
-            'text': 'bounded: each harness is exhaustive within its stated bound (all byte values), not a proof for all lengths. Decided: the label grammar clause for labels up to 65 bytes (longer ones take the same early return), the suffix relation and suffix removal for every pair of names with 0..=3 one-byte labels, link-local detection for one- and two-label names whose last label has 4, 5 or 6 bytes. NOT decided: Name::new as a whole (splitting on dots + 255-byte rule: collect::<Result<Vec<_>,_>>() did not finish under CBMC) and the display-then-reparse clause (format_args!)',
-            'explanation': 'bounded: Kani harnesses with #[kani::unwind]; bounds: label length <= 65 bytes; names of <= 3 labels of exactly 1 byte for the suffix algebra; last label of 4/5/6 bytes for link-local. Within each bound all byte values are covered (CBMC, unwinding assertions on). Name::new composition and display round-trip are not decided by any check.',
-            'note': KANI_NOTE + '; bounded stand-in, never counted as proved'},
+    'C17': {'standin': ['name_text'], 'verus': True, 'level': 'other',
+            'kani': ['r17_is_ascii_alphanumeric_table', 'label_grammar_le65'] + ['suffix_0_0', 'suffix_0_1', 'suffix_0_2', 'suffix_0_3', 'suffix_1_0', 'suffix_1_1', 'suffix_1_2', 'suffix_1_3', 'suffix_2_0', 'suffix_2_1', 'suffix_2_2', 'suffix_2_3', 'suffix_3_0', 'suffix_3_1', 'suffix_3_2', 'suffix_3_3'] + ['link_local_4', 'link_local_5', 'link_local_6', 'link_local_root'],
+            'technique': 'Verus contracts on the real bodies: Label::is_valid_label / Label::new against the label grammar of the property statement for labels of every length (the `.iter().skip(1).all(..)` scan through normalisation R17; the std fact u8::is_ascii_alphanumeric is a complete Kani proof over all 256 values); Name::is_subdomain_of == "strictly longer and ends with the other\'s labels" and Name::without == "Some(leading labels) exactly in that case" for names of every shape (the rev/zip/all chain through normalisation R18); Name::is_link_local == "last label is local in any letter case" (R19). Kani/CBMC bounded harnesses on the same real functions stay as an independent re-check that yields concrete counterexamples (grammar <= 65 bytes, suffix algebra <= 3 one-byte labels, link-local last labels of 4, 5, 6 bytes)',
+            'text': 'mixed: four of the six clauses proved, two not decided. PROVED for all inputs (Verus, unbounded): (1) Label::new(d) is Ok exactly when d has 1-63 bytes, starts with a letter, digit or underscore, continues with letters, digits, hyphens or underscores and ends with a letter or digit, and the label keeps the bytes it was given; (2) a.is_subdomain_of(b) is true exactly when a has strictly more labels than b and the last |b| labels of a are those of b; (3) a.without(b) is Some exactly in that case and then holds exactly the leading |a|-|b| labels of a; (4) is_link_local is true exactly when the name has a last label and it is `local` in any letter case. NOT decided: Name::new as a whole (splitting on dots + 255-byte rule: LabelsIter + collect::<Result<Vec<_>,_>>() is outside Verus and did not finish under CBMC; exercised only by the bounded stand-in name_text) and the display-then-reparse clause (format_args!)',
+            'explanation': 'label grammar, subdomain relation, suffix removal, link-local: deductive proofs (Verus) for every length and shape; the Kani harnesses re-check them within bounds (label length <= 65 bytes; names of <= 3 one-byte labels; last label of 4/5/6 bytes; all byte values, unwinding assertions on). Name::new composition (dot splitting, 255-byte rule) and the display round-trip are only exercised by the bounded stand-in `name_text` (strings up to length 6 over an 8-symbol alphabet, label lengths 0..70, name lengths around 255) and are not proved.',
+            'note': VERUS_NOTE + '; ' + KANI_NOTE + '; derived PartialEq / Clone of Label are assumed structural (PartialEqSpecImpl, axiom_label_clone); the std contracts of <[T]>::to_vec and <[u8]>::eq_ignore_ascii_case are assumed; Name::new and Display are not under contract'},
     'C18': {'verus': True, 'kani': ['type_table_all_codes', 'type_mnemonics', 'class_table_all_codes', 'qclass_table_all_codes',
                                     'qtype_table_all_codes', 'match_qclass_matrix', 'match_qtype_matrix'],
             'technique': 'Kani/CBMC loop-free over all 65536 codes and the full match matrix; Verus contracts (from_spec/try_from_spec tables) on the conversions of dns/mod.rs',
@@ -143,7 +145,7 @@ PROPS = {
 
 ASSUMPTIONS = [
     "Verus 0.2026.09.13 / Z3 and Kani 0.68 / CBMC 6.11 are sound; vstd's specifications of std are correct",
-    "R1..R15 syntactic normalisations preserve semantics (DESIGN.md 2.3, 8.3, 8.11, 8.13); R1 helper contracts are Kani-proved",
+    "R1..R19 syntactic normalisations preserve semantics (DESIGN.md 2.3, 8.3, 8.11, 8.13, 8.18); R1 helper contracts and the u8::is_ascii_alphanumeric table are Kani-proved",
     "slices never exceed isize::MAX bytes (Rust language guarantee, stated as precondition of parse)",
     "std::io::Write / Seek implementations obey the write_all / seek / stream_position contract of vx/prelude/vx.rs",
     "derived PartialEq/Eq/Hash/Clone impls are structural",
